@@ -60,6 +60,14 @@ def run(ctx):
                              frames=[dict(gen=rng.choice(["scene", "small", "rand16"]), seed=rng.randint(0, 10 ** 6), timeOn=60000 + 111 * k,
                                           lastFFC=0, tempC=20.5, lastFFCTempC=20.0) for k in range(nfr)]))
         sc["recordings"] = recs
+        if i < 3:
+            # always present: a tiny bucket that refills slowly while long triggers follow each other without a pause - every
+            # trigger after the first starts throttled and its file is (re)started in the middle of the trigger
+            sc["Fps"] = 2
+            sc["throttle"] = th = dict(bucket=1, minlen=1, k=400, frame_ms=100)
+            sc["recordings"] = [dict(adv_ms=[0, 0, 50][r % 3], thresh=1000 + 7 * r + i, bg=dict(gen="scene", seed=100 * i + r),
+                                     frames=[dict(gen="scene", seed=1000 * i + 50 * r + k, timeOn=60000 + 111 * k, lastFFC=0, tempC=20.5,
+                                                  lastFFCTempC=20.0) for k in range(25)]) for r in range(3)]
         scripts.append(sc)
     inp, outp = ctx.path("run", "rec.json"), ctx.path("run", "rec.ndjson")
     json.dump(dict(scripts=scripts), open(inp, "w"))
